@@ -17,11 +17,18 @@ Norm(st) == [vers |-> {st.vers[i] : i \in 1..Len(st.vers)},
              dhGroups |-> {st.dhGroups[i] : i \in 1..Len(st.dhGroups)},
              minKey |-> st.minKey, maxKey |-> st.maxKey, etm |-> st.etm, ems |-> st.ems, reqEms |-> st.reqEms,
              rsl |-> st.rsl, alpn |-> st.alpn]
+\* RFC 8446 4.1.3: a TLS 1.3 server that negotiates an older version marks ServerHello.random; a TLS 1.3 client
+\* that is offered an older version by such a server MUST abort with illegal_parameter when it sees the mark -
+\* at the ServerHello, whatever the attacker does later.  sawVer = version of the ServerHello the client
+\* processed (-1: none), local = the client's own alert ("" if it sent none).
+SentinelEnforced(cs, ss, sawVer, local) ==
+  (4 \in cs.vers /\ 4 \in ss.vers /\ sawVer >= 0 /\ sawVer < 4 /\ sawVer \in ss.vers) => local = "illegal_parameter"
 TraceInit == tid \in 1..N /\ l = 2
 TraceNext ==
   /\ l <= Len(T) /\ E.ev = "RES" /\ l' = l + 1 /\ UNCHANGED tid
   /\ (E.both => /\ Outcome(Norm(T[1].cs), Norm(T[1].ss), E.c, E.s)
                 /\ ~E.bodyTamper)
+  /\ SentinelEnforced(Norm(T[1].cs), Norm(T[1].ss), E.cSawVer, E.cLocal)
 Mark == IF l - 1 > TLCGet(tid) THEN TLCSet(tid, l - 1) ELSE TRUE
 ASSUME \A i \in 1..N : TLCSet(i, 0)
 Rejected == { i \in 1..N : TLCGet(i) # Len(Traces[i]) }
